@@ -1,3 +1,5 @@
+#[cfg(renoir_verif)]
+use simrt::stdshim as std;
 use std::any::TypeId;
 use std::collections::hash_map::Entry;
 use std::collections::{HashMap, HashSet};
@@ -529,6 +531,39 @@ impl NetworkTopology {
             log::debug!("demux {} socket: {:?}", coord, address);
             self.demultiplexer_addresses.insert(coord, address);
         }
+    }
+
+    #[cfg(renoir_verif)]
+    #[allow(clippy::type_complexity)]
+    pub(crate) fn verif_snapshot(
+        &self,
+    ) -> (
+        Vec<(crate::verif::CoordT, crate::verif::CoordT, bool)>,
+        Vec<((u64, u64, u64), String, u16)>,
+    ) {
+        use crate::verif::coord_t;
+        let mut edges: Vec<_> = self
+            .next
+            .iter()
+            .flat_map(|((from, _), to)| {
+                to.iter()
+                    .map(move |(to, fragile)| (coord_t(*from), coord_t(*to), *fragile))
+            })
+            .collect();
+        edges.sort();
+        let mut addresses: Vec<_> = self
+            .demultiplexer_addresses
+            .iter()
+            .map(|(d, (a, p))| {
+                (
+                    (d.coord.block_id, d.coord.host_id, d.prev_block_id),
+                    a.clone(),
+                    *p,
+                )
+            })
+            .collect();
+        addresses.sort();
+        (edges, addresses)
     }
 
     /// Finalize the topology and start mutliplexers and demultiplexers
